@@ -7,7 +7,7 @@ REPO_SRC = os.environ.get('VX_REPO_SRC', '/repo/src')
 
 class Src:
     """include /repo/src/<name>: every top-level item except `use`, test modules and the ones dropped here"""
-    def __init__(self, name, fns=(), drop=(), drop_fns=(), item_attr=None, keep_fns=None, header='', footer='', props=(), regex_rules=()):
+    def __init__(self, name, fns=(), drop=(), drop_fns=(), item_attr=None, keep_fns=None, header='', footer='', props=(), regex_rules=(), keep_items=None, dyn_calls=False):
         self.name = name
         self.fns = {s.key: s for s in fns}
         self.drop = set(drop)              # item names ('<X as fmt::Display>', 'create_context', ...)
@@ -16,7 +16,9 @@ class Src:
         self.item_attr = item_attr or {}   # item name -> attribute text inserted before it
         self.header, self.footer = header, footer
         self.props = list(props)           # default properties of un-annotated functions of this file
-        self.regex_rules = list(regex_rules)   # (rule_name, pattern, replacement) textual normalisations with counters
+        self.regex_rules = list(regex_rules)
+        self.dyn_calls = dyn_calls         # rule 7: rewrite applications of handler values to vx_apply(h, (args,))
+        self.keep_items = keep_items       # predicate(kind, name) on top-level items (None = keep all)   # (rule_name, pattern, replacement) textual normalisations with counters
 
 class Ghost:
     def __init__(self, text, props=(), name=''):
@@ -88,6 +90,7 @@ def generate(unit, repo_src=None):
                 # method inside an impl: handled with its impl block
                 continue
             if name in sf.drop: drop = True; c['dropped_items'] = c.get('dropped_items', 0) + 1
+            if (not drop) and sf.keep_items is not None and not sf.keep_items(kind, name): drop = True; c['dropped_items'] = c.get('dropped_items', 0) + 1
             if kind == 'fn' and sf.keep_fns is not None and not sf.keep_fns(name): drop = True
             if kind == 'fn' and name in sf.drop_fns: drop = True
             if drop:
@@ -103,9 +106,9 @@ def generate(unit, repo_src=None):
         # methods
         for key, fn in f.fns.items():
             top = fn.owner is None
-            owner_dropped = (not top) and (('fmt::Display' in fn.owner.key_prefix) or fn.owner.key_prefix in sf.drop)
+            owner_dropped = (not top) and (('fmt::Display' in fn.owner.key_prefix) or fn.owner.key_prefix in sf.drop or (sf.keep_items is not None and not sf.keep_items('impl', fn.owner.key_prefix)))
             if owner_dropped: continue
-            if top and (key in sf.drop or key in sf.drop_fns or (sf.keep_fns is not None and not sf.keep_fns(key))): continue
+            if top and ((sf.keep_items is not None and not sf.keep_items('fn', key)) or key in sf.drop or key in sf.drop_fns or (sf.keep_fns is not None and not sf.keep_fns(key))): continue
             if (not top) and (key in sf.drop_fns or (sf.keep_fns is not None and not sf.keep_fns(key))):
                 a = fn.a; b = fn.b
                 ls = f.src.rfind('\n', 0, a) + 1
@@ -121,6 +124,9 @@ def generate(unit, repo_src=None):
                 if t[i].s == '_' and t[i + 1].s == ':' and t[i - 1].s in ('(', ','):
                     ed.replace(t[i].a, t[i].b, '_unused%d' % n_un); n_un += 1
                     c['rule5_underscore_param'] = c.get('rule5_underscore_param', 0) + 1
+            if sf.dyn_calls:
+                from .splice import rewrite_dyn_calls
+                rewrite_dyn_calls(f, fn, ed, c)
             spec = sf.fns.get(key)
             if spec is not None:
                 apply_fn(f, ed, spec, c)
